@@ -210,13 +210,64 @@ def _contrib(m, kind, Ts, P, x):
     return out
 
 
+INT_TYPES = ('intarray', 'arange', 'intlist', 'intscalar')
+
+
+def _typed_T(Ts, scalar, ttype):
+    """The temperature argument as the user would pass it.  Integer-typed inputs (int ndarray,
+    np.arange, list of ints, scalar int) denote the same temperatures as their float values:
+    the bare twin and the per-model terms are always evaluated at float(T)."""
+    import numpy as np
+    if ttype == 'float':
+        return Ts[0] if scalar else np.array(Ts)
+    if any(t != int(t) for t in Ts):
+        raise core.MachineryError('integer-typed T needs integer temperatures: %r' % (Ts,))
+    ints = [int(t) for t in Ts]
+    if ttype == 'intscalar':
+        if not scalar:
+            raise core.MachineryError('intscalar needs a scalar evaluation')
+        return ints[0]
+    if scalar:
+        raise core.MachineryError('%s needs an array evaluation' % ttype)
+    if ttype == 'intarray':
+        return np.array(ints)
+    if ttype == 'intlist':
+        return list(ints)
+    if ttype == 'arange':
+        step = ints[1] - ints[0] if len(ints) > 1 else 1
+        arr = np.arange(ints[0], ints[-1] + 1, step)
+        if list(arr) != ints:
+            raise core.MachineryError('temperatures are not an arange: %r' % (ints,))
+        return arr
+    raise core.MachineryError('unknown ttype %r' % (ttype,))
+
+
+def _dec_is_int(d):
+    m, e = d
+    return e >= 0 or m % (10 ** (-e)) == 0 if -e < 18 else m == 0
+
+
+def _nonint_contribution(ms):
+    """Does some attached model contribute a non-integer value (under the route of its name_j)?"""
+    for m in ms:
+        k = m['k']
+        c = m.get('c0') or (m.get('cB') if k.endswith('B') else m.get('cC'))
+        if not c:
+            continue
+        for q in ('Cp', 'H', 'S'):
+            if any(not _dec_is_int(d) for d in c[q]):
+                return True
+    return False
+
+
 def _eval_event(case, objs, op):
     """Evaluate species op['o'] and build the trace event; also returns the raw values."""
     import numpy as np
     obj = objs[op['o'] - 1]
     Ts = [float(t) for t in op['Ts']]
     P, xB, xC = float(op['P']), float(op['xB']), float(op['xC'])
-    Targ = Ts[0] if op['scalar'] else np.array(Ts)
+    ttype = op.get('ttype', 'float')
+    Targ = _typed_T(Ts, bool(op['scalar']), ttype)
     cond = {'B_kwargs': {'x': xB}, 'C_kwargs': {'x': xC}}
     raw, ok, exc = {}, {}, {}
     for q in QS:
@@ -242,7 +293,8 @@ def _eval_event(case, objs, op):
             ent['cB'] = _contrib(m, k, Ts, P, xB)
             ent['cC'] = _contrib(m, k, Ts, P, xC)
         ms.append(ent)
-    ev = {'ev': 'eval', 'o': op['o'], 'scalar': bool(op['scalar']),
+    ev = {'ev': 'eval', 'o': op['o'], 'scalar': bool(op['scalar']), 'ttype': ttype,
+          'intT_nonint': ttype != 'float' and _nonint_contribution(ms),
           'Ts': [to_dec(t) for t in Ts], 'P': to_dec(P), 'lnP': to_dec(math.log(P)),
           'xB': to_dec(xB), 'xC': to_dec(xC), 'ok': ok, 'fin': fin,
           'r': {q: [to_dec(v) if core.finite(v) else [0, 0] for v in raw[q]] for q in raw},
@@ -319,6 +371,7 @@ def execute(case):
                     if bad:
                         mism.append({'clause': 'ReplayTotal', 'q': q, 'step': k,
                                      'tshape': 'scalar' if op['scalar'] else 'array',
+                                     'ttype': op.get('ttype', 'float'),
                                      'nmodels': len(ev['ms']),
                                      'detail': {'index': bad[:5], 'expected': [want[i] for i in bad[:5]],
                                                 'got': [raw[q][i] for i in bad[:5]]}})
@@ -426,7 +479,19 @@ def _rand_eval(rnd, o, big=False):
         P = 10.0 ** rnd.uniform(-3.0, 2.0)
         if abs(math.log(P)) < 0.05:
             P = 2.5
-    return {'act': 'eval', 'o': o, 'scalar': scalar, 'Ts': Ts, 'P': P,
+    ttype = 'float'
+    if rnd.random() < 0.3:              # integer-typed temperatures
+        if scalar:
+            ttype, Ts = 'intscalar', [float(rnd.randint(150, 3000))]
+        else:
+            ttype = rnd.choice(['intarray', 'intlist', 'arange'])
+            if ttype == 'arange':
+                step = rnd.randint(1, max(1, 2500 // n))
+                start = rnd.randint(150, 3000 - step * (n - 1))
+                Ts = [float(start + step * i) for i in range(n)]
+            else:
+                Ts = [float(rnd.randint(150, 3000)) for _ in range(n)]
+    return {'act': 'eval', 'o': o, 'scalar': scalar, 'Ts': Ts, 'P': P, 'ttype': ttype,
             'xB': round(rnd.uniform(0.0, 1.0), 3), 'xC': round(rnd.uniform(0.0, 1.0), 3)}
 
 
@@ -441,6 +506,17 @@ def _grid_case(c, cid):
            {'act': 'eval', 'o': 1, 'scalar': bool(c['scalar']), 'Ts': [256.0 * t for t in c['ts']],
             'P': c['P4'] / 4.0, 'xB': c['xB'] / 4.0, 'xC': c['xC'] / 4.0,
             'exp': {q: c[q] for q in QS}}]
+    # the grid temperatures 256 tau are integers: the same totals must come back when they are
+    # passed integer-typed (every 2nd Shomate case, every 4th Nasa/Nasa9 case, types in rotation)
+    k = int(cid[1:]) if cid[1:].isdigit() else 0
+    if k % (2 if c['fam'] == 'Shomate' else 4) == 0:
+        if c['scalar']:
+            tt = 'intscalar'
+        else:
+            ts = [256 * t for t in c['ts']]
+            eq = len(ts) > 1 and len(set(b - a for a, b in zip(ts, ts[1:]))) == 1 and ts[1] > ts[0]
+            tt = ['intarray', 'intlist', 'arange' if eq else 'intarray'][(k // 4) % 3]
+        ops.append(dict(ops[1], ttype=tt))
     return {'cid': cid, 'kind': 'grid', 'fam': c['fam'], 'coef': GRID_COEF[c['fam']], 'ops': ops,
             'sig': [c['fam'], misc, n, bool(c['scalar']), c['P4'], c['xB'], c['xC']]}
 
@@ -515,6 +591,7 @@ def _tags(case, ev=None, clause='', extra=None):
         t['ev'] = ev.get('ev')
         if ev.get('ev') == 'eval':
             t['tshape'] = 'scalar' if ev.get('scalar') else 'array'
+            t['ttype'] = ev.get('ttype', 'float')
             for q in ('Cp', 'H', 'S', 'G'):
                 if clause.endswith(q) and clause[:-len(q)] in ('Raises', 'Shape', 'SumOnce'):
                     t['q'] = q
@@ -533,7 +610,8 @@ def run(ctx):
     ctx.coverage['rule'] = (
         'a case is one history of species of one family sharing coefficients: construct, then '
         'sibling/copy/deepcopy/reload/attach steps, with evaluations (Cp, H, S, G at P and at the '
-        'default pressure; scalar T or arrays of 1-50) in between.  grid cases = every evaluation '
+        'default pressure; scalar T or arrays of 1-50, float or integer-typed: int ndarray, arange, list of '
+        'ints, scalar int) in between.  grid cases = every evaluation '
         'case of MC_MiscEval (totals computed by TLC, equality where dyadic); beh cases = complete '
         'TLC behaviours of MC_MiscModels_beh (kinds carried by every live species compared after '
         'each call); real cases = random real-valued histories.  Every case is also judged line by '
@@ -625,6 +703,7 @@ def run(ctx):
     phase['execute'] = round(time.time() - t1, 1)
     traces = []
     n_ep = 0
+    n_int = {}
     for tid, (case, (events, mism)) in enumerate(zip(cases, results)):
         if events is None:
             raise core.MachineryError('driver failure in case %s: %s' % (case.get('cid'), mism))
@@ -635,10 +714,13 @@ def run(ctx):
             ctx.nontrivial(json.dumps(case.get('sig', case['ops']), sort_keys=True, default=str))
         n_ep += sum(1 for e in events if e['ev'] == 'eval' and e['ms']
                     and all(m['k'] != 'P1' for m in e['ms']) and e['ok']['S'] and e['ok']['S1'])
+        for e in events:
+            if e['ev'] == 'eval' and e.get('intT_nonint'):
+                n_int[case['fam']] = n_int.get(case['fam'], 0) + 1
         for m in mism:
             ev = None
             tags = _tags(case, None, m['clause'],
-                         {k: m[k] for k in ('q', 'exc', 'tshape') if k in m})
+                         {k: m[k] for k in ('q', 'exc', 'tshape', 'ttype') if k in m})
             ctx.violation(m['clause'], case, tags=tags, detail=m.get('detail'))
         traces.append((tid, events))
         if tid % 1499 == 0:
@@ -652,6 +734,10 @@ def run(ctx):
     ctx.count('traces_validated_against_impl', len(traces))
     ctx.coverage['trace_lines'] = stats['lines']
     ctx.coverage['entropy_pressure_antecedent_true'] = n_ep
+    ctx.coverage['integer_typed_T_with_noninteger_contribution'] = n_int
+    if ctx.replay_case is None and min(n_int.get(f, 0) for f in ('Nasa', 'Nasa9', 'Shomate')) < 50:
+        raise core.MachineryError('vacuous: too few evaluations with integer-typed T and a non-integer '
+                                  'contribution: %r' % (n_int,))
     by_case = {}
     ev_of = dict(traces)
     for tid, idx, clause in fails:
